@@ -1210,10 +1210,14 @@ def evaluate__uri_collection(self: XPathFunction, context: ta.ContextType = None
             try:
                 resource_collection = [AnyURI(x) for x in context.resource_collections[uri]]
             except (KeyError, TypeError):
-                url_parts = urlsplit(uri)
-                if url_parts.scheme in ('', 'file') and \
-                        not url_parts.path.startswith(':') and url_parts.path.endswith('/'):
-                    raise self.error('FODC0003', 'collection URI is a directory')
+                try:
+                    url_parts = urlsplit(uri)
+                except ValueError:
+                    pass
+                else:
+                    if url_parts.scheme in ('', 'file') and \
+                            not url_parts.path.startswith(':') and url_parts.path.endswith('/'):
+                        raise self.error('FODC0003', 'collection URI is a directory')
                 raise self.error('FODC0002', '{!r} collection not found'.format(uri)) from None
 
     if not match_sequence_type(resource_collection, 'xs:anyURI*', self.parser):
@@ -1234,7 +1238,12 @@ def evaluate__unparsed_text(self: XPathFunction, context: ta.ContextType = None)
     href: Optional[str] = self.get_argument(context, cls=str)
     if href is None:
         return []
-    elif urlsplit(href).fragment:
+
+    try:
+        fragment = urlsplit(href).fragment
+    except ValueError as err:
+        raise self.error('FOUT1170', err) from None
+    if fragment:
         raise self.error('FOUT1170')
 
     encoding: str
@@ -1300,7 +1309,11 @@ def evaluate__unparsed_text_available(self: XPathFunction, context: ta.ContextTy
     href = self.get_argument(context, cls=str)
     if href is None:
         return False
-    elif urlsplit(href).fragment:
+
+    try:
+        if urlsplit(href).fragment:
+            return False
+    except ValueError:
         return False
 
     if len(self) > 1:
